@@ -25,7 +25,7 @@ HasStop(r)   == 2 \in Bits(r)
 Processed(r) == r # 0                      \* None (-1) included, see above
 Contributes(r) == Bits(r) \cup (IF r > 0 THEN {1} ELSE {})
 
-(* handler record: [id, ev, langs (sequence), ret] *)
+(* handler record: [id, ev, langs (sequence), ret, w]; w: the stub writes out_data even when it declines (ret = 0) *)
 Matches(h, lang) == lang \in ToSet(h.langs) \/ AnyLang \in ToSet(h.langs)
 Cand(reg, ev, lang) == SelectSeq(reg, LAMBDA h : h.ev = ev /\ Matches(h, lang))
 
@@ -66,8 +66,10 @@ CONSTANTS LangSets,     \* set of sequences of language names
 VARIABLES reg, ev, lang, cursor, acc, inTok, outTok, invoked, rets, seen, outs, done
 vars == <<reg, ev, lang, cursor, acc, inTok, outTok, invoked, rets, seen, outs, done>>
 
-Handler(i, e, ls, r) == [id |-> i, ev |-> e, langs |-> ls, ret |-> r]
-Registries(n) == {[i \in 1..n |-> Handler(i, f[i][1], f[i][2], f[i][3])] : f \in [1..n -> Events \X LangSets \X Rets]}
+Handler(i, e, ls, r, w) == [id |-> i, ev |-> e, langs |-> ls, ret |-> r, w |-> w]
+(* a return "word" 100 stands for: declines (UNPROCESSED) but has written out_data *)
+RetOf(r) == IF r = 100 THEN 0 ELSE r
+Registries(n) == {[i \in 1..n |-> Handler(i, f[i][1], f[i][2], RetOf(f[i][3]), f[i][3] = 100)] : f \in [1..n -> Events \X LangSets \X Rets]}
 
 Init == /\ reg \in UNION {Registries(n) : n \in 0..MaxHandlers}
         /\ ev \in Events /\ lang \in Langs
@@ -84,7 +86,7 @@ Skip == /\ ~done /\ cursor <= Len(List) /\ ~Matches(List[cursor], lang)
 Invoke ==
   /\ ~done /\ cursor <= Len(List) /\ Matches(List[cursor], lang)
   /\ LET h    == List[cursor]
-         out2 == IF h.ret # 0 THEN h.id ELSE outTok        \* stub handlers write their token when they process
+         out2 == IF h.ret # 0 \/ h.w THEN h.id ELSE outTok  \* stubs write their token when they process (or w)
          acc2 == acc \cup Contributes(h.ret)               \* sync_event_return
      IN /\ invoked' = Append(invoked, h.id) /\ rets' = Append(rets, h.ret)
         /\ seen' = Append(seen, inTok) /\ outs' = Append(outs, out2)
